@@ -126,10 +126,11 @@ def msgOf : Option (List Nat) → Msg
   | none => .generic
 
 /-- an annotation without an enhanced code ({0,0,0}, e.g. a relayed reply of a server that sends
-none) does not override the class-derived default -/
+none) does not override the class-derived default; neither does one without a class (0.x.y: it could
+not be the `Status` of a failure report — fix 9efcd5b) -/
 def pickEnch (f : Option Ench) (dflt : Ench) : Ench :=
   match f with
-  | some en => if notSet en then dflt else en
+  | some en => if en.cls == 0 then dflt else en
   | none => dflt
 
 /-- `(*Endpoint).wrapErr` (nil error excluded; message-id suffix and metrics omitted —
